@@ -566,12 +566,12 @@ Section Handle.
   Definition validate_address (fx : fixes) (e : env) (w : wst) (a : str) : outcome unit :=
     match c_addr cd a with
     | ADecErr => Ok tt                              (* answered: not valid *)
-    | _ =>
-        if evicted w then (if fx_cur_evicted fx then Err ErrAPINoWalletInUse else Panic PCurEvictedNil)
-        else match cur w with
-             | None => Err ErrAPINoWalletInUse      (* ErrCurrentKeystoreNotFound *)
-             | Some _ => Ok tt                      (* mine or not mine *)
-             end
+    | c =>
+        if negb (evicted w) && (match cur w with None => true | Some _ => false end)
+        then Err ErrAPINoWalletInUse                (* km.currentKeystore == nil: ErrCurrentKeystoreNotFound *)
+        else if negb (script_len c =? 32) then Err ErrAPIInvalidAddress     (* NewAddressWitnessScriptHash(scriptHash) refuses *)
+        else if evicted w then (if fx_cur_evicted fx then Err ErrAPINoWalletInUse else Panic PCurEvictedNil)
+        else Ok tt                                  (* mine or not mine *)
     end.
 
   (* the automatic transactions: EstimateTxFee / EstimateStakingTxFee / EstimateBindingTxFee begin with prepareFromAddresses *)
